@@ -192,13 +192,20 @@ J_C03(i) ==
 (* chosen member took the message (or is excused).  Whether the plainly entitled clients got their     *)
 (* copy is C03's question (J_C03), not this one: a publisher whose own copy is withheld by the         *)
 (* recorded No Local finding must not be reported as a share-group failure.                            *)
+(* the highest QoS member d is owed under choice ch: by its plain subscriptions and by the shared subscriptions it  *)
+(* is chosen for (a member chosen only for a QoS 0 share subscription while offline is owed nothing, whatever its    *)
+(* other share subscriptions of the same group name say)                                                            *)
+ChQos(i, ch, d) ==
+    LET S == {s \in MatchingSubs(Subs(Pre(i)), PubOf(i).t) :
+                 s.c = d /\ (s.kind = "client" \/ (s.kind = "shared" /\ <<s.g, s.f>> \in DOMAIN ch /\ ch[<<s.g, s.f>>] = d))}
+    IN IF S = {} THEN 0 ELSE MinOf(PubOf(i).qos, MaxIn({s.qos : s \in S}))
 GroupsExplained(i, skip) ==
     LET p == PubOf(i)
         E == PlainEntitled(i)
         R == Receivers(i)
     IN \E ch \in ShChoices(i) :
           /\ (R \ E) \subseteq ChosenSet(ch)
-          /\ \A d \in ChosenSet(ch) \ skip : d \in R \/ Excused(i, d, p.m, MaxSubQos(i, d))
+          /\ \A d \in ChosenSet(ch) \ skip : d \in R \/ Excused(i, d, p.m, ChQos(i, ch, d))
 (* the publisher itself, when one of its own matching plain subscriptions has No Local (signature of   *)
 (* the recorded finding NoLocalOrMerge: the merged subscription withholds every copy to the publisher) *)
 NoLocalOverlap(i) ==
